@@ -137,6 +137,9 @@ func init() {
 				p.Jobs = append(p.Jobs, Job{Harness: "gonnx.H_C16", Case: cm})
 			}
 		}
+		// two batched inputs joined along the last (feature) axis, several steps per sample
+		addGraph([]gnode{{"Concat", "x,y", "c", "axis=-1"}, {"Relu", "c", "o", ""}}, nil, []string{"o"}, []string{"x:1,2,2:0", "y:1,2,3:0"}, []int{0})
+		addGraph([]gnode{{"Concat", "x,y", "o", "axis=1"}}, nil, []string{"o"}, []string{"x:1,2,2:0", "y:1,1,2:0"}, []int{0})
 		one("Flatten", "axis=1", "x", nil, "x:1,2,2:0", 0)
 		one("Reshape", "", "x,s", []string{"s:2:i64=0,-1"}, "x:1,2,2:0", 0)
 		one("Reshape", "", "x,s", []string{"s:3:i64=-1,2,2"}, "x:1,4:0", 0)
